@@ -270,10 +270,11 @@ _CLASS_CACHE = {}
 
 
 def _legal_class(rx):
-    """the character class C of ^[C]+$ as sorted code point ranges, measured with the pattern's flags"""
-    m = re.fullmatch(r"\^(\[(?:[^\]\\]|\\.)+\])\+\$", rx.pattern)
+    """the character class C of ^[C]+\\Z as sorted code point ranges, measured with the pattern's flags"""
+    m = re.fullmatch(r"\^(\[(?:[^\]\\]|\\.)+\])\+\\Z", rx.pattern)
     if not m:
-        _fail("legal_characters pattern %r is not of the form ^[...]+$" % rx.pattern)
+        # (a "$" anchor would also match before a final newline: the model has no such branch since 67008c4)
+        _fail("legal_characters pattern %r is not of the form ^[...]+\\Z" % rx.pattern)
     key = (m.group(1), rx.flags)
     if key not in _CLASS_CACHE:
         one = re.compile(m.group(1), rx.flags)
@@ -574,17 +575,17 @@ def gen_v(tables, kw):
             q.append("(* every measured SQLite keyword that needs quoting is in the regenerated RESERVED_WORDS *)")
             q.append("Theorem reserved_complete_sqlite : forall w, In w sqlite_kw_measured -> In w (p_reserved t_sqlite).")
             q.append("Proof. apply reserved_complete. vm_compute; reflexivity. Qed.")
-            q.append("Theorem quote_lexes_back_sqlite : forall v, v <> [] -> bare_nl t_sqlite v = false ->")
+            q.append("Theorem quote_lexes_back_sqlite : forall v, v <> [] ->")
             q.append("  exists q, quote t_sqlite v = Ok q /\\ lex_sent (b_sqlite sqlite_kw_measured) q = Some v.")
-            q.append("Proof. intros v H1 H2. destruct (quote_lexes_back_guarded _ _ wf_sqlite compat_sqlite v H1 H2) as [q [Hq Hl]].")
+            q.append("Proof. intros v H1. destruct (quote_lexes_back _ _ wf_sqlite compat_sqlite v H1) as [q [Hq Hl]].")
             q.append("  exists q. split; auto. rewrite Hl. f_equal.")
             q.append("  apply (stored_identity _ _ wf_sqlite compat_sqlite). discriminate. Qed.")
         else:
             q.append("(* for every keyword set of the backend that the dialect's list covers *)")
             q.append("Theorem quote_lexes_back_%s : forall kw, (forall w, In w kw -> In w (p_reserved t_%s)) ->" % (name, name))
-            q.append("  forall v, v <> [] -> bare_nl t_%s v = false ->" % name)
+            q.append("  forall v, v <> [] ->")
             q.append("  exists q, quote t_%s v = Ok q /\\ lex_sent (b_%s kw) q = Some (stored t_%s (b_%s kw) v)." % (name, name, name, name))
-            q.append("Proof. intros kw Hkw. apply quote_lexes_back_guarded; [exact wf_%s|]." % name)
+            q.append("Proof. intros kw Hkw. apply quote_lexes_back; [exact wf_%s|]." % name)
             q.append("  exact (compat_kw_incl _ _ compat_%s kw Hkw). Qed." % name)
         if t["esc_pct"]:
             q.append("Theorem unformat_format_%s_guarded : forall names text, format_path t_%s names = Ok text ->" % (name, name))
@@ -598,8 +599,9 @@ def gen_v(tables, kw):
             q.append("Theorem unformat_format_%s : forall names text, format_path t_%s names = Ok text ->" % (name, name))
             q.append("  Forall (fun v => v <> []) names -> unformat t_%s text = Some names." % name)
             q.append("Proof. intros names text H Hne. apply (unformat_format_guarded _ wf_%s names text H); auto. left; reflexivity. Qed." % name)
-        q.append("Theorem quote_nl_refuted_%s : quote t_%s [97; 10] = Ok [97; 10] /\\ lex_sent (b_%s []) [97; 10] = Some [%d]."
-                 % (name, name, name, 65 if fold == "FoldUpper" else 97))
+        q.append("(* a final newline is quoted (fix 67008c4) *)")
+        q.append("Theorem quote_nl_%s : quote t_%s [97; 10] = Ok [%d; 97; 10; %d] /\\ lex_sent (b_%s []) [%d; 97; 10; %d] = Some [97; 10]."
+                 % (name, name, t["iq"], t["fq"], name, t["iq"], t["fq"]))
         q.append("Proof. vm_compute. split; reflexivity. Qed.")
     o.append("\nDefinition tables : list (prep * backend) := [%s]." % "; ".join(
         "(t_%s, b_%s (%s))" % (n, n, "sqlite_kw_measured" if n == "sqlite" else "p_reserved t_%s" % n) for n in DIALECTS))
@@ -639,7 +641,6 @@ def _U(t):
 
 
 _ODD = ["İ", "ı", "ſ", "K"]
-_LEGAL_NL = re.compile(r"[A-Za-z0-9_$İıſK]+\n\Z")
 _BINDLIKE = re.compile(r"%\(([^)]+?)\)s|__\[POSTCOMPILE_(\S+?)(~~.+?~~)?\]")
 
 
@@ -1256,20 +1257,10 @@ def match_finding(c, what):
         comps = ([_U(t[2][0])] if t[2] else []) + [_U(t[3]), _U(t[4])]
         if any("%" in x for x in comps):
             return "C06-percent-unformat"
-    if op in (0, 5, 6) and _LEGAL_NL.fullmatch(_U(t[2])):
-        return "C06-trailing-newline-not-quoted"
-    if op == 7 and any(_LEGAL_NL.fullmatch(_U(x)) for x in list(t[2]) + [t[3]]):
-        return "C06-trailing-newline-not-quoted"
     if op == 5 and _BINDLIKE.search(_U(t[2])):
         return "C06-bind-pattern-in-name-positional"
-    if op == 6:
-        name = _U(t[2])
-        if '"' in name:
-            return "C06-sqlite-unique-constraint-name-quote"
-        if "\n" in name:
-            return "C06-sqlite-unique-constraint-name-newline"
-        if "$" in name and re.fullmatch(r"[a-z0-9_$\u0131\u017f]+", name):
-            return "C06-sqlite-unique-constraint-name-dollar"
+    if op == 6 and "\n" in _U(t[2]):
+        return "C06-sqlite-unique-constraint-name-newline"
     return None
 
 
@@ -1278,8 +1269,8 @@ LEVEL_TEXT = (
     "sequences and for EVERY dialect table satisfying boolean side conditions: what quote() emits is read "
     "back by the backend's identifier lexer as the same name (folded when bare), quote_identifier always "
     "is, splitting the dotted form recovers the components, the splitter always terminates; with "
-    "_refuted/_guarded pairs for the two defects (a final newline is not quoted; %% is not undone by "
-    "unformat_identifiers on format/pyformat dialects).  The side conditions are evaluated by vm_compute "
+    "a _refuted/_guarded pair for the remaining defect (%% is not undone by unformat_identifiers on "
+    "format/pyformat dialects; the final-newline defect was repaired by 67008c4).  The side conditions are evaluated by vm_compute "
     "on tables regenerated from the current source on every run (T1), including: every SQLite keyword "
     "that needs quoting - measured on the live library - is in RESERVED_WORDS."
 )
